@@ -277,8 +277,16 @@ func c35(c *engine.Ctx) {
 	c.Floor("C35.R4", 20, n4)
 
 	// ---- R5 trim
+	c35Trim(c, "C35.R5")
+	_ = fmt.Sprint
+}
+
+// c35Trim decides the trailing-space trim of Builder.fixEntities under the
+// given rule id (C37.R3 shares it: after Complete every entity lies inside the
+// trimmed text).
+func c35Trim(c *engine.Ctx, rule string) {
 	n5 := 0
-	if fx := c.MustFunc("C35.R5", entPkg, "Builder.fixEntities"); fx != nil {
+	if fx := c.MustFunc(rule, entPkg, "Builder.fixEntities"); fx != nil {
 		var trim *ssa.Call
 		for _, call := range engine.CallsTo(fx, false, "strings.TrimRightFunc") {
 			trim, _ = call.(*ssa.Call)
@@ -293,7 +301,7 @@ func c35(c *engine.Ctx) {
 			ok = isSl && sl.High == nil && engine.Unwrap(sl.X) == ssa.Value(fx.Params[1]) && strings.HasSuffix(engine.Describe(sl.Low), ".offset") && strings.Contains(engine.Describe(sl.Low), "p:b.lengths[(builtin.len(p:b.lengths) - 1)]") &&
 				strings.HasSuffix(engine.Describe(trim.Common().Args[1]), "unicode.IsSpace")
 		}
-		c.Check(ok, "C35.R5", "fixEntities/trims-trailing-space-of-last-block", fx.Pos(), "the block trimmed must be msg[lastEntity.offset:] right-trimmed with unicode.IsSpace")
+		c.Check(ok, rule, "fixEntities/trims-trailing-space-of-last-block", fx.Pos(), "the block trimmed must be msg[lastEntity.offset:] right-trimmed with unicode.IsSpace")
 		// the cut message and its UTF-16 length
 		var cut *ssa.Slice
 		engine.Instrs(fx, func(i ssa.Instruction) {
@@ -323,7 +331,7 @@ func c35(c *engine.Ctx) {
 			valOK := end != nil && engine.DependsOn(a[1], end)
 			okS := whole && idxOK && valOK
 			if !whole {
-				c.Check(false, "C35.R5", "fixEntities/setLength#"+ordinalCall(fx, call)+"/covers-every-entity-past-the-cut", call.Pos(), "after the message is cut, only %s is shortened: any other entity that reaches into the trimmed tail (a nested entity, or any entity once ShrinkPreCode has reordered the list) keeps a range that ends beyond the text", engine.Describe(a[2]))
+				c.Check(false, rule, "fixEntities/setLength#"+ordinalCall(fx, call)+"/covers-every-entity-past-the-cut", call.Pos(), "after the message is cut, only %s is shortened: any other entity that reaches into the trimmed tail (a nested entity, or any entity once ShrinkPreCode has reordered the list) keeps a range that ends beyond the text", engine.Describe(a[2]))
 				continue
 			}
 			// only when the last entity reaches the end of the message
@@ -356,7 +364,7 @@ func c35(c *engine.Ctx) {
 				}
 				return false
 			})
-			c.Check(okS && okG && okE, "C35.R5", "fixEntities/setLength#"+ordinalCall(fx, call), call.Pos(), "a length may be rewritten only for an entity with offset+length beyond the UTF-16 length of the cut text, in a loop over the whole list, to a value derived from that length, and only when the last block reaches the end of the message (loop/value: %v, end-of-message guard: %v, beyond-the-cut guard: %v)", okS, okG, okE)
+			c.Check(okS && okG && okE, rule, "fixEntities/setLength#"+ordinalCall(fx, call), call.Pos(), "a length may be rewritten only for an entity with offset+length beyond the UTF-16 length of the cut text, in a loop over the whole list, to a value derived from that length, and only when the last block reaches the end of the message (loop/value: %v, end-of-message guard: %v, beyond-the-cut guard: %v)", okS, okG, okE)
 		}
 		// the message is cut at offset + len(trimmed)
 		for _, r := range engine.Returns(fx) {
@@ -381,11 +389,10 @@ func c35(c *engine.Ctx) {
 			} else {
 				okC = false
 			}
-			c.Check(okC, "C35.R5", "fixEntities/message-cut-where-lengths-end", r.Pos(), "the message must be cut at offset + len(trimmed), the point the rewritten lengths describe")
+			c.Check(okC, rule, "fixEntities/message-cut-where-lengths-end", r.Pos(), "the message must be cut at offset + len(trimmed), the point the rewritten lengths describe")
 		}
 	}
-	c.Floor("C35.R5", 3, n5)
-	_ = fmt.Sprint
+	c.Floor(rule, 3, n5)
 }
 
 // fieldStoresSuffix lists the stores of fn whose address description ends with suffix.
